@@ -305,9 +305,22 @@ def arithK (op : ArithOp) (w : IW) (a b : Arr Int) : KOut (Arr Int) :=
 def cmpK {α} (f : α → α → Bool) (a b : Arr α) : KOut (Arr Bool) :=
   (binaryOp (fun x y => KOut.ok (f x y)) a b).map clearNull
 
-/-- `arith!` arms for the integer variants; everything else `Err(NoBinaryOp)`. -/
-def Col.arith (op : ArithOp) : Col → Col → KOut Col
+/-- `div` / `rem` first pass the divisor through `safen_dividend`, which knows numeric arrays and
+(since /repo 26c93c7) the NULL-typed array only. -/
+def Col.divisorOk (op : ArithOp) : Col → Bool
+  | .bool _ => !op.safens
+  | .str _ => !op.safens
+  | _ => true
+
+/-- `arith!` arms for the integer variants; an operand of type NULL (the untyped NULL constant) gives
+the NULL-typed array (since /repo 26c93c7: `(Null, _) => self.clone()`, `(_, Null) => other.clone()`);
+everything else `Err(NoBinaryOp)`. -/
+def Col.arith (op : ArithOp) (ca cb : Col) : KOut Col :=
+  if !Col.divisorOk op cb then .err else
+  match ca, cb with
   | .int wa a, .int wb b => (arithK op (wa.max wb) a b).map (.int (wa.max wb))
+  | .null k, _ => .ok (.null k)
+  | _, .null k => .ok (.null k)
   | _, _ => .err
 
 /-- `cmp!` arms. -/
@@ -315,6 +328,10 @@ def Col.cmp (op : CmpOp) : Col → Col → KOut Col
   | .int _ a, .int _ b => (cmpK op.onInt a b).map .bool
   | .bool a, .bool b => (cmpK (fun x y => op.onOrd (boolOrd x y)) a b).map .bool
   | .str a, .str b => (cmpK (fun x y => op.onOrd (strOrd x y)) a b).map .bool
+  -- since /repo 26c93c7: comparing with the untyped NULL constant: `self.len()` NULLs (built by
+  -- a builder: raw false), whatever the other operand's type
+  | .null k, cb => .ok (.bool (List.replicate (Col.null k).len ⟨false, false⟩))
+  | ca, .null _ => .ok (.bool (List.replicate ca.len ⟨false, false⟩))
   | _, _ => .err
 
 /-- `ArrayImpl::and`. -/
@@ -342,11 +359,20 @@ def orK (a b : Arr Bool) : KOut (Arr Bool) :=
 def notK (a : Arr Bool) : Arr Bool :=
   clearNull (a.map fun s => ⟨s.valid, !s.raw⟩)
 
-def Col.and : Col → Col → KOut Col
-  | .bool a, .bool b => (andK a b).map .bool
+/-- `null_as_bool` (since /repo 26c93c7): the untyped NULL constant as an operand of AND / OR is a
+BOOLEAN array of NULLs. -/
+def Col.asBoolArr : Col → Option (Arr Bool)
+  | .bool a => some a
+  | .null k => some (List.replicate k ⟨false, false⟩)
+  | _ => none
+
+def Col.and (ca cb : Col) : KOut Col :=
+  match ca.asBoolArr, cb.asBoolArr with
+  | some a, some b => (andK a b).map .bool
   | _, _ => .err
-def Col.or : Col → Col → KOut Col
-  | .bool a, .bool b => (orK a b).map .bool
+def Col.or (ca cb : Col) : KOut Col :=
+  match ca.asBoolArr, cb.asBoolArr with
+  | some a, some b => (orK a b).map .bool
   | _, _ => .err
 def Col.not : Col → KOut Col
   | .bool a => .ok (.bool (notK a))
@@ -359,6 +385,8 @@ def Col.neg : Col → KOut Col
     | .ok c => .ok (.int w c)
     | .err => .err
     | .panic => .panic
+  -- the untyped NULL constant (`x * -1` / `0 - x` are rewritten to `-x`): `self.clone()`
+  | .null k => .ok (.null k)
   | _ => .err
 
 /-- `ArrayImpl::select`: integer arms; Bool (with `clear_null`) and String arms since /repo
@@ -381,6 +409,7 @@ def Col.select : Col → Col → Col → KOut Col
     | .ok c => .ok (.str c)
     | .err => .err
     | .panic => .panic
+  | .bool _, .null k, .null _ => .ok (.null k)   -- since /repo 26c93c7: `true_array.clone()`
   | _, _, _ => .err
 
 /-- `IsNull` in the evaluator: `valid.iter().map(|v| !v).collect()` (all slots valid). -/
